@@ -242,7 +242,7 @@ func readBack(t testing.TB, b []byte) (names []string, present []bool, grids []m
 						disp = siText(*c.Is)
 					case "b":
 						disp = map[string]string{"1": "TRUE", "0": "FALSE"}[v]
-					case "str", "e", "n", "":
+					case "str", "e", "n", "", "d":
 						disp = v
 					default:
 						t.Fatalf("cell %s: unknown type %q", c.R, c.T)
